@@ -148,15 +148,6 @@ def evalCond (ours theirs : Nat) : Gen.C17.Cond → Bool
   | .not a => !evalCond ours theirs a
   | .unknown _ => false
 
-def commitByName (s : String) : Option Nat :=
-  if s == "UNKNOWN_COMMITMENT_TYPE" then some 0 else if s == "LEGACY" then some 1
-  else if s == "STATIC_REMOTE_KEY" then some 2 else if s == "ANCHORS" then some 3
-  else if s == "SCRIPT_ENFORCED_LEASE" then some 4 else if s == "SIMPLE_TAPROOT" then some 5
-  else if s == "SIMPLE_TAPROOT_OVERLAY" then some 6 else none
-
-def boolByName (s : String) : Option Bool :=
-  if s == "true" then some true else if s == "false" then some false else none
-
 /-- first case of the table whose condition holds (`none` condition = `default:`) -/
 def evalDetCases (ours theirs : Nat) : List Gen.C17.DetCase → Option (Nat × Bool)
   | [] => none
@@ -165,7 +156,7 @@ def evalDetCases (ours theirs : Nat) : List Gen.C17.DetCase → Option (Nat × B
       | none => true
       | some cond => evalCond ours theirs cond
     if hit then
-      match commitByName c.commit, boolByName c.musig2 with
+      match c.commit, c.musig2 with
       | some ct, some m => some (ct, m)
       | _, _ => none
     else evalDetCases ours theirs rest
@@ -173,9 +164,14 @@ def evalDetCases (ours theirs : Nat) : List Gen.C17.DetCase → Option (Nat × B
 /-! ### `order.PendingChanKey` and `input.FindScriptOutputIndex` -/
 def pendingChanKey (H : Bytes → Bytes) (askNonce bidNonce : Bytes) : Bytes := H (askNonce ++ bidNonce)
 
-/-- index of the first output carrying `script`; 0 when there is none (the `found` result is ignored) -/
+/-- index of the first output carrying `script` -/
+def firstIdx (script : Bytes) : List Bytes → Option Nat
+  | [] => none
+  | s :: rest => if s = script then some 0 else (firstIdx script rest).map (· + 1)
+
+/-- `input.FindScriptOutputIndex` with the `found` result ignored: 0 when no output carries the script -/
 def findScriptOutputIndex (outs : List Bytes) (script : Bytes) : Nat :=
-  match outs.findIdx? (fun s => s == script) with
+  match firstIdx script outs with
   | some i => i
   | none => 0
 
